@@ -15,6 +15,10 @@ CLAIMED = {
             "for every type the round-trip assertion is decided by the solver for all field values within the bounds", "DESIGN.md C01"),
     "C02": ("same exploration as C01, the oracle being a reference Avro decoder written from the specification that sees only the "
             "generated Schema value and the bytes; null-branch rule asserted via the expected datum", "DESIGN.md C02"),
+    "C03": ("bounded symbolic execution of the real decoder over the bytes of a reference encoder whose every spec-permitted choice "
+            "(block splitting, size prefixes, null position) is a solver variable, into compatible target types (width, indirection, wrappers)", "DESIGN.md C03"),
+    "C04": ("same exploration as C03; asserts that Skip (empty target struct) consumes exactly what Read consumes and that projected targets "
+            "decode the same field values", "DESIGN.md C04"),
     "C17": ("full-width symbolic execution of the primitive codecs: every int64/int32/int16 value, every float32/float64 bit pattern, "
             "every byte string <= 11 bytes as a candidate varint, against a reference transcribed from the specification", "DESIGN.md C17"),
 }
